@@ -1,5 +1,6 @@
+\* narrow unsigned type (u8 u16 u32 scaled)
 CONSTANTS BODY = "B"  TNEG = 0  TMAX = 8  CNEG = 1000  CMAX = 1000  BNEG = 0  BHI = 8
-          MAXELEMS = 16  MAXPEERS = 6  REVERSED = FALSE  NEARMAX = FALSE  WRAPPED = TRUE
+          MAXELEMS = 16  MAXPEERS = 6  FIX_REVERSED = TRUE  FIX_CLAMP_START = TRUE  WRAPPED = TRUE
 SPECIFICATION Spec
 INVARIANTS C15_Range
 CHECK_DEADLOCK FALSE
